@@ -285,6 +285,64 @@ def source_facts(ctx):
     return facts
 
 
+# ------------------------------------------------------------------ inventory closure
+# Every declaration of utility/Observer.h, utility/TimeStamp.h, utility/TimeStamp.cpp (clang AST, re-read on every run; implicit special
+# members included) -> the theorems / source-derived obligations about it and the harness operations that execute it, or the reason it lies
+# outside the property.  Harness operations: H:<op> history tokens, T:<op> TimeStamp program tokens, threads / static / counter runs.
+_U = "rkcommon::utility::"
+_ALL_T = ["T:f", "T:r", "T:cc", "T:mc", "T:ca", "T:ma"]
+_COPY_OUT = ("copying / moving an Observable or Observer is not an operation of the property's histories (create, destroy, notify, poll); the "
+             "implicitly declared operation does not maintain the registry - reported as a possible finding, repro build/handoff/C19/copy_repro.cpp")
+COVER = {
+    "class TimeStamp": {"by": ["facts_timestamp_counter"], "ops": _ALL_T},
+    "class Observable": {"by": ["facts_members"], "ops": ["H:nb"]},
+    "class Observer": {"by": ["facts_members"], "ops": ["H:no"]},
+    "TimeStamp::TimeStamp void () noexcept(false) [=default]": {"by": ["timestamp_fresh_or_renewed", "stamps_fresh", "facts_timestamp_ops"], "ops": ["T:f", "H:nb", "H:no", "threads", "static"]},
+    "TimeStamp::TimeStamp void (const %sTimeStamp &)" % _U: {"by": ["timestamp_copy_carries_source", "facts_timestamp_ops"], "ops": ["T:cc", "threads"]},
+    "TimeStamp::TimeStamp void (%sTimeStamp &&)" % _U: {"by": ["timestamp_copy_carries_source", "facts_timestamp_ops"], "ops": ["T:mc", "threads"]},
+    "TimeStamp::operator= %sTimeStamp &(const %sTimeStamp &)" % (_U, _U): {"by": ["timestamp_copy_carries_source", "facts_timestamp_ops"], "ops": ["T:ca", "threads"]},
+    "TimeStamp::operator= %sTimeStamp &(%sTimeStamp &&)" % (_U, _U): {"by": ["timestamp_copy_carries_source", "facts_timestamp_ops"], "ops": ["T:ma", "threads"]},
+    "TimeStamp::operator unsigned long size_t () const": {"by": ["facts_timestamp_counter", "facts_members"], "ops": _ALL_T + ["H:p", "threads"]},
+    "TimeStamp::renew void ()": {"by": ["timestamp_fresh_or_renewed", "facts_timestamp_ops"], "ops": ["T:r", "H:n", "H:p", "threads"]},
+    "TimeStamp::nextValue size_t () static": {"by": ["facts_next_is_fetch_add", "timestamp_concurrent_distinct", "timestamp_counter_exact"], "ops": ["T:f", "T:r", "threads", "counter"]},
+    "TimeStamp::~TimeStamp void () noexcept [implicit] [=default]": {"by": ["facts_timestamp_counter"], "ops": _ALL_T + ["H:db", "H:do"]},
+    "field TimeStamp::value std::atomic<size_t>": {"by": ["facts_timestamp_counter"], "ops": _ALL_T},
+    "static-field TimeStamp::global std::atomic<size_t>": {"by": ["facts_timestamp_counter"], "ops": ["counter", "threads", "static"]},
+    "Observable::Observable void () [=default]": {"by": ["facts_members", "facts_step", "stamps_fresh"], "ops": ["H:nb", "static"]},
+    "Observable::~Observable void () noexcept virtual": {"by": ["facts_table_match", "facts_step", "observer_orphan", "no_use_after_free", "no_dangling"], "ops": ["H:db"]},
+    "Observable::notifyObservers void ()": {"by": ["facts_table_match", "facts_step", "was_notified_exactly_when", "notifications_coalesce"], "ops": ["H:n", "static"]},
+    "Observable::registerObserver void (%sObserver &)" % _U: {"by": ["facts_table_match", "facts_step", "no_dangling"], "ops": ["H:no"]},
+    "Observable::removeObserver void (%sObserver &)" % _U: {"by": ["facts_table_match", "facts_step", "no_dangling", "no_use_after_free"], "ops": ["H:do"]},
+    "Observable::Observable void (const %sObservable &) noexcept(false) [implicit] [=default]" % _U: {"out": _COPY_OUT},
+    "Observable::operator= %sObservable &(const %sObservable &) noexcept(false) [implicit] [=default]" % (_U, _U): {"out": _COPY_OUT},
+    "field Observable::lastNotified %sTimeStamp" % _U: {"by": ["facts_members"], "ops": ["H:n"]},
+    "field Observable::observers std::vector<Observer *>": {"by": ["facts_members", "no_dangling"], "ops": ["H:no", "H:do", "H:db"]},
+    "friend-of Observable: %sObserver" % _U: {"by": ["facts_table_match"], "ops": ["H:no", "H:do"]},
+    "Observer::Observer void (%sObservable &)" % _U: {"by": ["facts_table_match", "facts_members", "facts_step", "late_observer_starts_clean"], "ops": ["H:no", "static"]},
+    "Observer::~Observer void () noexcept": {"by": ["facts_table_match", "facts_step", "no_use_after_free"], "ops": ["H:do"]},
+    "Observer::wasNotified bool ()": {"by": ["facts_table_match", "facts_step", "observer_spec", "was_notified_exactly_when", "notification_seen_once"], "ops": ["H:p", "static"]},
+    "Observer::Observer void (const %sObserver &) noexcept(false) [implicit] [=default]" % _U: {"out": _COPY_OUT},
+    "Observer::operator= %sObserver &(const %sObserver &) noexcept(false) [implicit] [=default]" % (_U, _U): {"out": _COPY_OUT},
+    "field Observer::lastObserved %sTimeStamp" % _U: {"by": ["facts_members"], "ops": ["H:p", "H:no"]},
+    "field Observer::observee %sObservable *" % _U: {"by": ["facts_members", "observer_orphan"], "ops": ["H:p", "H:db", "H:do"]},
+    "friend-of Observer: %sObservable" % _U: {"by": ["facts_table_match"], "ops": ["H:db"]},
+}
+
+
+def inventory_check(ctx, counts):
+    try:
+        inv = factgen.inventory(ctx.repo, os.path.join(ctx.build, "ast"))
+    except Exception as ex:   # noqa
+        ctx.broken.append("inventory: extraction failed: %r" % (ex,))
+        return
+    problems, report = factgen.sxast.cover_check(inv, COVER, counts)
+    for pb in problems[:8]:
+        ctx.broken.append(pb)
+    ctx.cov["inventory"] = {"declarations": len(inv), "covered": sum(1 for v in report.values() if isinstance(v, int)),
+                            "out_of_scope": sum(1 for v in report.values() if not isinstance(v, int)), "problems": problems,
+                            "executed": report}
+
+
 FACT_THMS = ("facts_table_match", "facts_members", "facts_step", "facts_timestamp_counter", "facts_next_is_fetch_add", "facts_timestamp_ops")
 
 
@@ -583,6 +641,11 @@ def run(ctx):
                       {"threads": bad[0], "iterations_per_thread": bad[1], "rc": bad[2], "observed": bad[3], "stderr_tail": bad[4],
                        "required": "all fresh/renewed values pairwise distinct, strictly increasing per thread, copies equal their source, no data race",
                        "rerun": "%s threads %d %d" % (thr, bad[0], bad[1])})
+    counts = dict(hist)
+    counts["threads"] = tstat.get("runs", 0)
+    counts["static"] = sstat.get("runs", 0)
+    counts["counter"] = probes.get("runs", 0) - probes.get("skipped", 0)
+    inventory_check(ctx, counts)
     ctx.trusted += ["fact extractor props/C19/factgen.py + tools/sxast/sxast.py over `clang++ -std=c++11 -fsyntax-only -Xclang -ast-dump=json` of the working tree's "
                     "TimeStamp.{h,cpp} and Observer.h (statement patterns -> coq/C19/gen/Facts.v; the meaning given to each statement is coq/C19/FactsDefs.v)",
                     "correspondence harness harness/C19/harness.cpp + generators/oracle in props/C19/check.py (g++ -O1, ASan+UBSan; threads test -O2"
